@@ -69,7 +69,7 @@ OUTSIDE_SRC = ("parent-link", "link-dangling", "link-devfull")     # only for ou
 LINK_STATES = ["link-file", "link-file-outside", "link-dangling", "link-dir", "parent-link"] + (["link-devfull"] if P.devfull_ok() else [])
 # every third scenario has no failing stage and puts ONE output into a state taken round-robin from this
 # list, with force-file-write alternately true and false: each (state, force) pair occurs in every run
-FOCUS = [(st, f) for f in (True, False) for st in ["absent", "same", "stale", "longer", "user", "dir"] + LINK_STATES]
+FOCUS = [(st, f) for f in (True, False) for st in ["absent", "same", "stale", "longer", "user", "dir"] + LINK_STATES + ["alias-rel", "alias-link"]]
 
 
 def put_state(s, rel, st, pkgname):
@@ -103,8 +103,39 @@ def put_state(s, rel, st, pkgname):
         s["links"][d] = os.path.relpath("m/linktargets/pd%d" % n, d.rsplit("/", 1)[0])
 
 
+def gen_alias(rng, how, force):
+    """ONE file reached through TWO spellings in one run: A1 of package a goes to the default
+    {{.InterfaceDir}}/mocks_test.go (an absolute path), A2 to the same file spelled relative to the
+    working directory (`dir: a`) or through a symlinked directory (`dir: alink`, alink -> a).  mockery keys
+    output files by the path string: two collections, two writes.  The file is absent beforehand; the write
+    that comes second in the (random) map order finds the file of the first: refused unless
+    force-file-write.  Reference contents come from the de-aliased base (A2 in a file of its own)."""
+    base = P.new_scn(["a", "b"])
+    base["packages"][P.pkg_path("b")] = {"config": {"all": True}}
+    base["packages"][P.pkg_path("a")] = {"interfaces": {"A1": None, "A2": {"config": {"filename": "alias_other_test.go"}}}}
+    s = copy.deepcopy(base)
+    s["packages"][P.pkg_path("a")]["interfaces"]["A2"] = {"config": {"dir": "a" if how == "alias-rel" else rng.choice(["alink", "./alink"])}}
+    if how == "alias-link":
+        s["links"]["m/alink"] = "a"
+    s["root"]["force-file-write"] = force
+    if rng.random() < 0.5:           # the flag only where it matters
+        del s["root"]["force-file-write"]
+        for i_ in ("A1", "A2"):
+            e = s["packages"][P.pkg_path("a")]["interfaces"][i_] or {"config": {}}
+            e["config"]["force-file-write"] = force
+            s["packages"][P.pkg_path("a")]["interfaces"][i_] = e
+    s["ref_name"] = {"A2": ["m", "a", "alias_other_test.go"]}
+    s["init"] = P.unrelated_files(rng, s)
+    s["init_from_ref"] = {}
+    s["states"] = {"m/a/mocks_test.go": "absent (two spellings)", "m/b/mocks_test.go": "absent"}
+    s["tags"] += ["force:focus-%s" % force, "state:" + how]
+    return s, base
+
+
 def gen_c10(rng, i):
     focus = FOCUS[(i // 3) % len(FOCUS)] if i % 3 == 0 else None
+    if focus and focus[0].startswith("alias"):
+        return gen_alias(rng, *focus)
     # the other scenarios: every stage with every formatter (48 = 16 stages x 3 formatters per quick run):
     # a stage failure that leaves an EMPTY or partial text behind is only visible when the formatter lets it
     # through (noop always, gofmt for an empty text; goimports rejects it)
@@ -231,30 +262,41 @@ def oracle_c10(res):
             errs.append("stray write: %s is not a designated output (before %s, after %s)" % ("/".join(path), b, a))
     for path, lst in sorted(outs.items()):
         b, a = before.get(path), after.get(path)
-        ref = P.ref_of(res, lst[0][1])
         name = "/".join(path)
-        g = gov[lst[0][1]["key"]]                # the first mock of the file: its config governs the file
-        fails = file_fails(world, lst, g)
+        # the map keys (path strings) that denote this file; usually one
+        keys = {}
+        for p, q in lst:
+            if q["key"] not in keys:
+                g = gov[q["key"]]                 # the first mock of the collection: its config governs it
+                sub = [pq for pq in lst if pq[1]["key"] == q["key"]]
+                keys[q["key"]] = {"g": g, "ref": P.ref_of(res, g), "fails": file_fails(world, sub, g)}
+        refs = {k["ref"] for k in keys.values() if k["ref"] is not None}
+        writer = [k for k in keys.values() if k["ref"] is not None and k["ref"] == a]
         if b == "DIR" and a != "DIR":
             errs.append("the directory that occupies output path %s was replaced" % name)
         # every output path ends up holding its complete old content or the complete new content
         # (the new content = what the same configuration writes into a pristine tree)
-        if a != b and (ref is None or a != ref):
+        if a != b and a not in refs:
             errs.append("output %s holds neither its old node nor the complete new content" % name)
-        if fails:
+        if all(k["fails"] for k in keys.values()):
             # a failure at any stage: the path keeps its old node (absence included) and the run fails;
             # an empty or partial file is neither
             if a != b:
                 errs.append("output %s changed (now %s) although producing it fails at a stage before writing" % (name, a))
             if res["run"]["cls"] == "Exit0":
                 errs.append("exit status 0 although producing %s fails at a stage before writing" % name)
-        if a != b and b is not None and not g["force"]:
+        if a != b and b is not None and writer and not any(k["g"]["force"] for k in writer):
             errs.append("existing node at %s was replaced although force-file-write is false" % name)
         if res["run"]["cls"] == "Exit0":
-            if b is not None and not g["force"]:
+            if b is not None and not any(k["g"]["force"] for k in keys.values()):
                 errs.append("exit status 0 although %s was occupied and force-file-write is false" % name)
-            if a != ref:
+            if a not in refs:
                 errs.append("exit status 0 although output %s does not hold the complete new content" % name)
+            if len(keys) > 1 and writer and not any(k["g"]["force"] for k in writer):
+                # two spellings of one file: whichever was written second found the file that the first
+                # write of this very run created - without force-file-write it must be refused
+                errs.append("exit status 0 although %d output files of this run (%s) denote the same file %s and force-file-write is false: "
+                            "the write that came second replaced the file the first one had just created" % (len(keys), sorted(keys), name))
     return errs
 
 
@@ -268,7 +310,7 @@ def check(ctx, only=None):
         pairs = [(P.scn_from_replay(x), x.get("base")) for x in only]
         pairs = [(s, (dict(P.new_scn(b["pkgs"]), **b) if b else None)) for s, b in pairs]
     else:
-        n = 900 if big else 72
+        n = 900 if big else 84
         pairs = [gen_c10(ctx.rng, i) for i in range(n)]
     results = P.run_pipeline_stream(ctx, pairs, None)
     hist, oracle_fail, terms, tidx, samples = {}, [], [], [], []
